@@ -130,7 +130,40 @@ def solver_oracle(args):
     return None
 
 
+def initial_column_oracle(args):
+    """Entry 0 is the value at time 0, i.e. of the initial state — also with noise, in every trajectory."""
+    from mqt.yaqs import simulator
+    from mqt.yaqs.core.data_structures.networks import MPO, MPS
+    from mqt.yaqs.core.data_structures.noise_model import NoiseModel
+    from mqt.yaqs.core.data_structures.simulation_parameters import AnalogSimParams, Observable
+
+    L = 2
+    obs = [Observable("x", 0), Observable("z", 0), Observable("x", 1)]
+    p = AnalogSimParams(obs, elapsed_time=args["k"] * args["dt"], dt=args["dt"], order=args["order"], sample_timesteps=True,
+                        solver=args["solver"], show_progress=False, num_traj=4)
+    nm = NoiseModel([{"name": "lowering", "sites": [0], "strength": 0.8}, {"name": "pauli_z", "sites": [1], "strength": 0.6}])
+    try:
+        simulator.run(MPS(L, state="x+"), MPO.ising(L, 1.0, 0.5), p, nm, parallel=False)
+    except Exception as e:  # noqa: BLE001
+        return f"simulator.run raised {type(e).__name__}: {e}"
+    want = [1.0, 0.0, 1.0]
+    for o, w in zip(obs, want):
+        traj = np.real(np.asarray(o.trajectories))[:, 0] if args["solver"] != "Lindblad" else np.real(np.atleast_1d(o.results))[:1]
+        if np.max(np.abs(traj - w)) > 1e-9:
+            return (f"{args['solver']} order {args['order']}: entry 0 of a noisy run is {traj.tolist()}, "
+                    f"the initial state's value is {w}")
+    return None
+
+
 def search(ctx):
+    for solver, order in (("TJM", 1), ("TJM", 2), ("MCWF", 1), ("Lindblad", 1)):
+        for (k, dt) in ((1, 0.1), (3, 0.1)):
+            a = dict(k=k, dt=dt, solver=solver, order=order)
+            why = initial_column_oracle(a)
+            ctx.case(nontrivial_key=("col0", solver, order, k))
+            ctx.count("noisy_initial_column")
+            if why:
+                ctx.violation("initial-column:" + solver, why, {"oracle": "col0", "args": a})
     plan = []
     for solver, order in (("TJM", 1), ("TJM", 2), ("MCWF", 1), ("Lindblad", 1)):
         for sampling in (True, False):
@@ -159,6 +192,8 @@ def replay(ctx, data):
     rp = data.get("replay", data)
     if rp.get("oracle") == "solver":
         return solver_oracle(rp["args"])
+    if rp.get("oracle") == "col0":
+        return initial_column_oracle(rp["args"])
     if rp.get("oracle") == "grid":
         n = len(params(rp["T"], rp["dt"]).times)
         return f"{n} grid points for k={rp['k']}" if n != rp["k"] + 1 else None
